@@ -206,12 +206,16 @@ def reaction_sites(ctx, m, r_loss="R2", r_gain="R3"):
     for name, lst, sign in (("loss", loss, -1), ("gain", gain, +1)):
         rule = r_loss if name == "loss" else r_gain
         if len(lst) != 1:
-            (ctx.bad if lst else ctx.missing)(rule, f"rhs:{name}:count", (FILE, m.func.lineno),
+            # (a store whose row list could not be identified is filed under "loss": then neither the count nor its sign says anything)
+            unfiled = any(s.role is None for s in lst)
+            (ctx.missing if not lst else ctx.unrec if unfiled else ctx.bad)(rule, f"rhs:{name}:count", (FILE, m.func.lineno),
                                                f"expected exactly one {name} store into rhs per reaction, found {len(lst)}"
                                                + ("" if not lst else " at lines " + ", ".join(str(s.line) for s in lst)))
         for s in lst:
             ok = report_problems(ctx, rule, s)
             ok &= guards_ok(ctx, rule, s)
+            if s.role is None and any(sev == "unrec" for sev, _, _ in s.problems):
+                continue
             if s.sign != sign and not any(c == "not-a-term" for _, c, _ in s.problems):
                 ctx.bad(rule, f"{site_key(s)}:sign", where(s), f"{name} term has sign {s.sign:+d}",
                         expected=f"{sign:+d}", found=s.text)
